@@ -141,8 +141,15 @@ def check(case):
         if first is None:
             return ('columns start at fixed offsets', info, body[bi], widths)
         for j in range(k):
-            if split_cells(body[bi + j], widths, colsep, lead, trail) is None:
+            extra = split_cells(body[bi + j], widths, colsep, lead, trail)
+            if extra is None:
                 return ('columns start at fixed offsets (expanded lines)', info, body[bi + j], widths)
+            if j:
+                # continuation lines of an expanded row: only a multi-valued cell that has a j-th element shows anything there
+                for ci2, (v2, c2) in enumerate(zip(r, extra)):
+                    more = isinstance(v2, inventory.Inventory) and len(v2.get_positions()) > j
+                    if not more and c2.strip():
+                        return ('continuation lines of an expanded row are blank in the columns that have nothing more to show', {**info, 'column': ci2}, c2, '')
         for ci, (v, t, cell) in enumerate(zip(r, coltypes, first)):
             s = cell.strip()
             if v is None:
@@ -215,7 +222,8 @@ def check(case):
     # CSV
     out = io.StringIO()
     try:
-        query_render.render_csv(columns, rows, dc, out, expand=expand, nullvalue=null)
+        # the shell hands every setting to every renderer: the CSV renderer gets the text options too and ignores them
+        query_render.render_csv(columns, rows, dc, out, **{**opts, 'expand': expand, 'nullvalue': null})
     except Exception as e:
         return ('csv rendering succeeds', info, f'{type(e).__name__}: {e}', None)
     recs = list(csv.reader(io.StringIO(out.getvalue())))
@@ -226,6 +234,15 @@ def check(case):
         return ('CSV has one record per (expanded) row', info, len(recs) - 1, nrec)
     if any(len(r) != len(columns) for r in recs):
         return ('CSV has exactly one field per column', info, [len(r) for r in recs][:4], len(columns))
+    if expand:
+        ri = 1
+        for r in rows:
+            k = max([1] + [len(v.get_positions()) for v in r if isinstance(v, inventory.Inventory)])
+            for j in range(1, k):
+                for ci2, (v2, f2) in enumerate(zip(r, recs[ri + j])):
+                    if not (isinstance(v2, inventory.Inventory) and len(v2.get_positions()) > j) and f2.strip():
+                        return ('continuation records of an expanded row are empty in the columns that have nothing more to show (CSV)', {**info, 'column': ci2}, f2, '')
+            ri += k
     # same formatted values as the text cells (padding aside) for single-line scalar cells
     if not spaced and not expand:
         for r, rec, line in zip(rows, recs[1:], body):
@@ -250,6 +267,11 @@ def cases(tier, seed):
             out.append(((t,), tuple((k,) for k in range(n)), o))
         out.append(((t,), (), {}))
         out.append(((t, int), ((0, 1),), dict(nullvalue='(null)')))
+    ninv = len(POOLS[inventory.Inventory])
+    for o in (dict(expand=True, nullvalue='NULL'), dict(expand=True, nullvalue='-', boxed=True), dict(expand=True, spaced=True, nullvalue='NULL')):
+        # expanded multi-line cells next to scalar cells, with a visible NULL placeholder
+        out.append(((inventory.Inventory, int, str), tuple((k, k % 3, k % 2) for k in range(ninv)), o))
+        out.append(((str, inventory.Inventory, inventory.Inventory), tuple((k % 2, k, (k + 1) % ninv) for k in range(ninv)), o))
     for _ in range(300 if tier == 'quick' else 5000):
         k = rng.randint(1, 5)
         ct = tuple(rng.choice(TYPES) for _ in range(k))
